@@ -85,7 +85,30 @@ def compare_pair(ex, what=("notes", "blame"), strict_prompts=True, files=None):
                         break
             if any(isinstance(v, dict) and v.get("files") for v in na.values()):
                 ex.probe("ai_lines_observed")
-            return {"monitor": "pair.notes", "class": "notes_differ", "detail": {"diff": diff}}
+            # do the two notes agree on the lines each commit itself adds (the entries blame can consult)?
+            from .props.c01 import added_lines
+            only_unadded = True
+            for c in sorted(set(na) | set(nb)):
+                if na.get(c) == nb.get(c):
+                    continue
+                fa = na[c].get("files", {}) if isinstance(na.get(c), dict) else None
+                fb = nb[c].get("files", {}) if isinstance(nb.get(c), dict) else None
+                if fa is None or fb is None:
+                    only_unadded = False
+                    break
+                parent = a.w.head(ra, c + "^")
+                for path in sorted(set(fa) | set(fb)):
+                    al = added_lines(a.w, ra, parent, c, path)
+                    ra_ = {h: sorted(n for n in ls if n in al) for h, ls in fa.get(path, {}).items()}
+                    rb_ = {h: sorted(n for n in ls if n in al) for h, ls in fb.get(path, {}).items()}
+                    if {h: v for h, v in ra_.items() if v} != {h: v for h, v in rb_.items() if v}:
+                        only_unadded = False
+                        break
+                if not only_unadded:
+                    break
+            return {"monitor": "pair.notes", "class": "notes_differ",
+                    "detail": {"diff": diff, "head": ha, "tip_differs": na.get(ha) != nb.get(ha),
+                               "differ_only_on_lines_the_commit_did_not_add": only_unadded}}
         if any(isinstance(v, dict) and v.get("files") for v in na.values()):
             ex.probe("ai_lines_observed")
     if "blame" in what:
